@@ -383,3 +383,22 @@ def dsl_family(mode, depth=1):
     log(f'[replay] MC_Dsl/{mode}/{depth}: {s["records"]} cases, {s["counters"].get("executions", 0)} executions, {s["findings"]} deviations')
     _family_cache[key] = r
     return r
+
+
+# --------------------------------------------------------------------------------------------
+# MC_Misc: validator rule and hostile-magnitude totality (C15)
+
+def misc_family():
+    key = 'misc'
+    if key in _family_cache:
+        return _family_cache[key]
+    m = tlc('MC_Misc', os.path.join('cfg', 'MC_Misc.cfg'), workers=4, timeout=600)
+    m['states'] = max(m['states'], 1)
+    m['transitions'] = max(m['transitions'], 1)
+    wd = workdir(key)
+    out = os.path.join(wd, 'findings.ndjson')
+    s = harness('replay_misc', ['--in', m['out'], '--out', out])
+    r = {'name': key, 'tlc': m, 'summary': s, 'findings': read_ndjson(out), 'obs': None}
+    log(f'[replay] MC_Misc: {s["counters"].get("validator_cases", 0)} validator classes, {s["counters"].get("hostile_cases", 0)} hostile ledgers, {s["findings"]} deviations')
+    _family_cache[key] = r
+    return r
